@@ -4,7 +4,7 @@
    written with price 0 and commission c so that no quotient is needed). *)
 From Coq Require Import List NArith ZArith QArith Qcanon Bool Lia.
 From ACB Require Import Base.Outcome Base.QcExtra Base.Arith Model.Tx Model.Ledger Model.Sfl
-     Model.DeltaList Proofs.Tactics Proofs.C01Refine.
+     Model.DeltaList Proofs.Tactics Proofs.C01Refine Proofs.AllAfter.
 Import ListNotations.
 Local Open Scope Qc_scope.
 
@@ -129,6 +129,10 @@ Proof.
   { unfold delta_for_tx. cbn [t_af opening_buy t_act]. rewrite next_pre_st0, sanity_zero. cbn [bind].
     unfold delta_nonsell. cbn [t_act opening_buy zero_status s_sh s_all s_acb].
     rewrite (gez_add_ok 0 n) by (rewrite E1; exact Hn). cbn [bind].
+    rewrite (all_after_exact_as _ _ _ (0 + n)) by ring. cbn [bind].
+    unfold gez_unwrap at 1.
+    assert (Eb : Qcleb 0 (0 + n) = true) by (apply Qcleb_true; rewrite E1; exact Hn).
+    rewrite Eb. cbn [bind].
     unfold local_value.
     rewrite (gez_mul_ok 0 n) by (rewrite E3; apply Qcle_refl). cbn [bind].
     rewrite (gez_mul_ok (0 * n) 1) by (rewrite E3, E6; apply Qcle_refl). cbn [bind].
@@ -145,8 +149,9 @@ Proof.
     destruct (Qceqb_spec n n) as [_|Hx]; [|exfalso; apply Hx; reflexivity]. cbn [negb].
     fold st0. fold (opening_status n c).
     unfold set_latest, latest_for, st0, opening_status.
+    cbn [ps_map alookup ps_all s_sh].
+    rewrite (all_after_exact_as _ _ _ n) by ring.
     cbn [ps_map alookup ps_all a_add a_sub exact bind s_sh s_all s_acb af_reg default_aff is_none].
-    assert (E7 : n + 0 - 0 = n) by ring. rewrite E7.
     destruct (Qceqb_spec n n) as [_|Hx]; [|exfalso; apply Hx; reflexivity]. cbn [negb Bool.eqb].
     eexists; split; reflexivity. }
   destruct Hi as (st1 & Hi1 & Hi2).
